@@ -427,7 +427,7 @@ func c01Apply(b c01Behaviour, orig net.TaggedMarshaler, self int, n, t int, sec 
 			if ch {
 				return []net.TaggedMarshaler{x}, true
 			}
-		case "p10-reveal-operating": // reveals its key for an operating member
+		case "p10-reveal-operating": // adds its genuine key for the victim (an operating member, or a member it would not reveal for)
 			if kp, ok := sec.ephemeral[victim]; ok {
 				x.privateKeys[victim] = kp.PrivateKey
 				return []net.TaggedMarshaler{x}, true
@@ -575,6 +575,16 @@ func c01RandomCase(rng *rand.Rand, n, t int) c01Case {
 				others = append(others, j)
 			}
 		}
+		// faults are aimed at accomplices as often as at honest members
+		if k >= 2 && rng.Intn(2) == 0 {
+			for _, q := range perm[:k] {
+				if q+1 != id {
+					for r := 0; r < n; r++ {
+						others = append(others, q+1)
+					}
+				}
+			}
+		}
 		s := c01Script{}
 		p := 0.2 + 0.3*rng.Float64()
 		for _, key := range c01PhaseKeys {
@@ -587,6 +597,32 @@ func c01RandomCase(rng *rand.Rand, n, t int) c01Case {
 			s[key] = c01PickBehaviour(rng, key, id, n, t, others)
 		}
 		c.Corrupt[id] = s
+	}
+	// collusion template: A cheats accomplice B in phase 3, B does not
+	// complain, A later needs reconstruction, B reveals (or not)
+	if k >= 2 && rng.Intn(4) == 0 {
+		a, b := perm[0]+1, perm[1]+1
+		f3 := []string{"p3-shares-wrong", "p3-shares-garbage", "p3-shares-empty", "p3-conflict-bad-first"}[rng.Intn(4)]
+		c.Corrupt[a][c01P3S] = c01Behaviour{Name: f3, Victim: b}
+		c.Corrupt[b][c01P4] = c01Behaviour{Name: "acc-drop"}
+		delete(c.Corrupt[a], c01P1)
+		delete(c.Corrupt[b], c01P1)
+		delete(c.Corrupt[b], c01P3S)
+		delete(c.Corrupt[b], c01P3C)
+		delete(c.Corrupt[a], c01P3C)
+		delete(c.Corrupt[a], c01P4)
+		if rng.Intn(2) == 0 {
+			// B reveals its genuine ephemeral key for A although its own code would not
+			c.Corrupt[b][c01P10] = c01Behaviour{Name: "p10-reveal-operating", Victim: a}
+		}
+		switch rng.Intn(4) {
+		case 0:
+			c.Corrupt[a][c01P7] = c01Behaviour{Name: "silent"}
+		case 1:
+			c.Corrupt[a][c01P7] = c01Behaviour{Name: "p7-points-random"}
+		case 2:
+			c.Corrupt[a][c01P7] = c01Behaviour{Name: "p7-points-short"}
+		}
 	}
 	return c
 }
@@ -819,6 +855,18 @@ func c01Curated() []c01Case {
 			add(n, t, map[int]c01Script{1: {c01P1: B("silent", 0)}, 2: {c01P4: B("acc-false", 1), c01P8: B("acc-wrong-key", 1)}})
 			add(n, t, map[int]c01Script{1: {c01P3S: B("p3-shares-wrong", 3)}, 2: {c01P4: B("acc-false", 3), c01P10: B("p10-reveal-operating", 3)}})
 			add(n, t, map[int]c01Script{1: {c01P7: B("p7-points-partial", 0, 3, 4)}, 2: {c01P8: B("acc-drop", 0), c01P10: B("p10-reveal-none", 0)}})
+			// collusions: A cheats its accomplice B in phase 3, B keeps quiet,
+			// A then drops out so that its key has to be reconstructed
+			for _, f3 := range []string{"p3-shares-wrong", "p3-shares-garbage", "p3-shares-empty"} {
+				for _, f7 := range []string{"silent", "p7-points-random", "p7-points-short"} {
+					add(n, t, map[int]c01Script{1: {c01P3S: B(f3, 2), c01P7: B(f7, 0)}, 2: {c01P4: B("acc-drop", 0)}})
+					// ... and B, which never stored A's bad share, still reveals its genuine key for A
+					add(n, t, map[int]c01Script{1: {c01P3S: B(f3, 2), c01P7: B(f7, 0)}, 2: {c01P4: B("acc-drop", 0), c01P10: B("p10-reveal-operating", 1)}})
+				}
+			}
+			add(n, t, map[int]c01Script{n: {c01P3S: B("p3-shares-wrong", 1), c01P7: B("p7-points-partial", 0, 2, 3)}, 1: {c01P4: B("acc-drop", 0), c01P8: B("acc-drop", 0)}})
+			add(n, t, map[int]c01Script{n: {c01P3S: B("p3-shares-wrong", 1), c01P7: B("silent", 0)}, 1: {c01P4: B("acc-drop", 0), c01P10: B("p10-reveal-wrong-key", 0)}})
+			add(n, t, map[int]c01Script{2: {c01P3S: B("p3-conflict-bad-first", 1), c01P7: B("silent", 0)}, 1: {c01P4: B("acc-drop", 0)}})
 		}
 	}
 	return cs
